@@ -163,6 +163,13 @@ static void run_type(mon::Rng& rng, const vsbx_library& lib)
     judge("load", x, tf, ab, true, ref::val(got));
     ab = mon::aborts([&] { got = (*cell).UNSAFE_unverified(); });
     judge("load-unverified", x, tf, ab, true, ref::val(got));
+    // the copy_and_verify family reads the same cell: value, pointer (unique_ptr copy) and range of one element
+    ab = mon::aborts([&] { got = (*cell).copy_and_verify([](T v) { return v; }); });
+    judge("load-copy_and_verify", x, tf, ab, true, ref::val(got));
+    ab = mon::aborts([&] { got = cell.copy_and_verify([](std::unique_ptr<T> v) { return *v; }); });
+    judge("load-copy_and_verify-pointer", x, tf, ab, true, ref::val(got));
+    ab = mon::aborts([&] { got = cell.copy_and_verify_range([](std::unique_ptr<T[]> v) { return v[0]; }, 1); });
+    judge("load-copy_and_verify_range", x, tf, ab, true, ref::val(got));
     // invoke result
     mon::ctx("path/invoke-result/%s/%s | g=%s", cfg, tn, mon::i128s(x).c_str());
     Wd::template ret_override<G>::on = true;
